@@ -22,6 +22,7 @@ RULE_MODULES = {
     "C09": "rules.c09_typestate",
     "C10": "rules.c10_adjoint",
     "C11": "rules.c11_bonds",
+    "C12": "rules.c12_spectra",
     "C13": "rules.c13_trunc",
     "C14": "rules.c14_effects",
     "C15": "rules.c15_history",
